@@ -431,3 +431,6 @@ def check_one(case):
     if case.get("osm"):
         pr = [(f"{sig}:osm-tag" if "/q/" in str(det) else sig, det) for sig, det in pr]
     return {"outcome": "ok", "nt": (nlang >= 2 or nrefs >= 1) and not pr, "viol": pr, "tr": ntr}
+
+# as-built additions of the seventh wave (reported with the bound in the evidence)
+BOUND = {k: v + "; seventh wave: " + 'the frozen corpus with its own default language and with its first language as default_language argument; free rows with one cell holding nothing but a blank' for k, v in BOUND.items()}
